@@ -453,7 +453,7 @@ impl<'a> MtHelpers<'a> {
                 };
                 let app_response = (*code_id.app)
                     .app_mut()
-                    .execute(sender.clone(), msg.into())
+                    .execute(sender.clone(), Into::into(msg))
                     .map_err(|err| err.downcast::< #error_type >().unwrap())?;
 
                 #sylvia:: cw_utils::parse_instantiate_response_data(app_response.data.unwrap().as_slice())
